@@ -32,6 +32,7 @@ pub enum CompileErrorKind {
     TooManyArguments,
     TooManyUpvalues,
     TooManyGlobals,
+    JumpTooFar,
     BreakOutsideLoop,
     ContinueOutsideLoop,
     ReturnOutsideFunction,
